@@ -89,6 +89,13 @@ def run_case(rng, idx, tier):
         _seen.add(name); ev["functions_exercised"] = 1
     band = prims.in_band(p1, p2)
     key0 = {"fn": name, "structured": sc.structured, "band": band, "sliver_triangle": prims.has_sliver(p1, p2)}
+    if p2.kind in ("ellipsoid", "ellipsoid_surface") and p1.kind == "point":
+        # mechanism predicate for K6: query point inside the ellipsoid with a vanishing local coordinate
+        so = p2.orc.solid if p2.kind == "ellipsoid_surface" else p2.orc
+        ql = so.loc(np.asarray(p1.args[0], float))
+        inside = bool(np.sum((ql / so.e) ** 2) < 1.0)
+        key0["interior_point_on_principal_plane"] = bool(inside and np.min(np.abs(ql)) <= 1e-9 * max(1.0, float(so.e.max())))
+        key0["small_ellipsoid"] = bool(so.e.max() < 0.5)     # mechanism predicate for K25
     if p2.kind == "circle":
         # mechanism predicate for K5: a query point within sqrt(epsilon)=1e-3 (absolute) of the circle's axis
         cir = p2.orc
